@@ -213,7 +213,7 @@ func ApplyDamage(path, kind string, shard int, alt, orig func(int) []byte) error
 		}
 	case 'k': // flip a checksum byte
 		if len(b) >= erasure.MetaDataSize {
-			b[1+n%16] ^= 0x81
+			b[1+n%16]++ // not an involution: the same damage twice is still damage (the model adds 1 mod 256 too)
 		}
 	case 'z': // set the pad-count byte
 		if len(b) >= 1 {
